@@ -655,6 +655,18 @@ func (f *fsm) openSent() (fsmState, error) {
 					f.keepAliveInterval = f.holdTime / 3
 					f.keepAliveTimer = time.NewTimer(f.keepAliveInterval)
 					f.drainAndResetHoldTimer()
+				} else {
+					// https://tools.ietf.org/html/rfc4271#section-4.2
+					// A negotiated hold time of zero disables the hold and
+					// keepalive timers for the lifetime of the session.
+					if !f.holdTimer.Stop() {
+						select {
+						case <-f.holdTimer.C:
+						default:
+						}
+					}
+					f.keepAliveTimer = time.NewTimer(longHoldTime)
+					f.keepAliveTimer.Stop()
 				}
 
 				return openConfirmState, nil
@@ -735,7 +747,9 @@ func (f *fsm) openConfirm() (fsmState, error) {
 							- restarts the HoldTimer and
 							- changes its state to Established.
 					*/
-					f.drainAndResetHoldTimer()
+					if f.holdTime != 0 {
+						f.drainAndResetHoldTimer()
+					}
 					return establishedState, nil
 				case *Notification:
 					return idleState, newNotificationError(m, false)
